@@ -63,7 +63,7 @@ func runIsolated(t *testing.T, r *ev.Run, tampers []tamper) {
 	}, false, false}
 	all := append(append([]tamper{}, tampers...), extra)
 	var mu sync.Mutex
-	var blocks, cases int64
+	var blocks, cases, cfgCases int64
 	for _, nw := range isolatedNets {
 		ents, err := os.ReadDir("clients/feeder/testdata/" + nw.dir + "/block")
 		if err != nil {
@@ -162,8 +162,98 @@ func runIsolated(t *testing.T, r *ev.Run, tampers []tamper) {
 					r.Outcome("isolated: tampered block rejected")
 				}
 			}
+			// part N on the isolated blocks: the block's own network with an unverifiable range declared just below / just
+			// above / as an empty interval around THIS block's number (these blocks have large numbers and the older hash
+			// formats), and with another fallback sequencer address. The block is outside every one of these ranges, so
+			// whenever the genuine block verifies under the configuration every tamper must be refused.
+			for _, cfg := range ncIsolatedConfigs(r, n, nw.net.BlockHashMetaInfo.First07Block) {
+				if cfg.exempt(n) {
+					continue
+				}
+				cbc := blockchain.New(memory.New(), cfg.network(nw.net))
+				ge, err := load(n)
+				if err != nil {
+					continue
+				}
+				if _, err := cbc.SanityCheckNewHeight(ge.Block, ge.SU, nil); err != nil {
+					if cfg.Fallback == "own" {
+						r.Violate(fmt.Sprintf("isolated: genuine-block-refused on a custom network [%s] %s", cfg.shape(), label), map[string]any{"network": nw.dir, "block": n, "network_config": cfg, "err": err.Error()})
+					} else {
+						r.Outcome("isolated: genuine block does not verify with another fallback sequencer address (not judged)")
+					}
+					continue
+				}
+				done := map[string]bool{}
+				for _, tm := range all {
+					cls := tamperClass(tm.name)
+					ok := cls != "receipt.event-moved-to-other-tx"
+					if ok {
+						ok = false
+						for _, p := range commits {
+							ok = ok || strings.HasPrefix(cls, p)
+						}
+					}
+					if !ok || (!r.Thorough() && (!ncIsolatedQuick[cls] || done[cls])) {
+						continue
+					}
+					te, err := load(n)
+					if err != nil {
+						continue
+					}
+					before := chain.Dump([]any{te.Block})
+					var applied bool
+					if pan, _ := ev.Guard(func() { applied = tm.apply(te) }); pan || !applied || chain.Dump([]any{te.Block}) == before {
+						continue
+					}
+					done[cls] = true
+					var verr error
+					pan, msg := ev.Guard(func() { _, verr = cbc.SanityCheckNewHeight(te.Block, te.SU, nil) })
+					mu.Lock()
+					cfgCases++
+					mu.Unlock()
+					r.Add("evaluations", 1)
+					switch {
+					case pan:
+						r.Violate("isolated: verification-panics on a custom network "+cls+" "+label, map[string]any{"block": n, "tamper": tm.name, "network_config": cfg, "panic": msg})
+					case verr == nil:
+						// one key per (range shape, network): the tamper class and the era are in the detail
+						r.Violate(fmt.Sprintf("isolated: tampered-block-passes-verification OUTSIDE the network's declared unverifiable range [%s] %s", cfg.shape(), nw.dir),
+							map[string]any{"network": nw.dir, "era": era, "block": n, "tamper": tm.name, "network_config": cfg})
+					default:
+						r.Outcome("isolated: tampered block rejected on a custom network")
+					}
+				}
+			}
 		})
 	}
 	r.Set("isolated_fixture_blocks", blocks)
 	r.Set("isolated_fixture_tamper_cases", cases)
+	r.Set("isolated_fixture_netcfg_tamper_cases", cfgCases)
+}
+
+// quick: one representative per verification stage of the older formats (first index that applies)
+var ncIsolatedQuick = map[string]bool{"header.timestamp": true, "header.tx-count": true, "header.hash": true, "tx.hash+receipt-hash": true,
+	"header.sequencer:=other": true, "receipt.event-data": true}
+
+// ncIsolatedConfigs: ranges that do NOT contain block n - quick: the empty interval [n+1,n]; thorough: also the one-block
+// ranges just above and just below n, [0,n-1], [n+1,2^64-1], the empty intervals [2^64-1,0] and [n,n-1], no range, all
+// with the network's own fallback sequencer address, and [n+1,n] / no range without / with another fallback address.
+func ncIsolatedConfigs(r *ev.Run, n, f07 uint64) []ncConfig {
+	const max = ^uint64(0)
+	if !r.Thorough() {
+		// quick: the tight empty interval only (loading and dumping the real blocks dominates the cost of this part)
+		return []ncConfig{{"isolated-range", []uint64{n + 1, n}, f07, "own"}}
+	}
+	rs := [][]uint64{{n + 1, n}, {n + 1, n + 1}, {n + 1, max}, {max, 0}, nil}
+	if n > 0 {
+		rs = append(rs, []uint64{n - 1, n - 1}, []uint64{0, n - 1}, []uint64{n, n - 1})
+	}
+	var out []ncConfig
+	for _, ur := range rs {
+		out = append(out, ncConfig{"isolated-range", ur, f07, "own"})
+	}
+	for _, fb := range []string{"nil", "other"} {
+		out = append(out, ncConfig{"isolated-fallback", []uint64{n + 1, n}, f07, fb}, ncConfig{"isolated-fallback", nil, f07, fb})
+	}
+	return out
 }
